@@ -34,10 +34,10 @@ def baseline():
     return _BASE
 
 
-def is_artefact(rel: str, fn) -> bool:
-    """A private def that did not exist in the baseline tree (by simple name, per module)."""
+def is_artefact(rel: str, fn, nested: bool = False) -> bool:
+    """A private def (or, nested=True, any closure) that did not exist in the baseline tree (by simple name, per module)."""
     name = getattr(fn, "name", "")
-    if not name.startswith("_") or (name.startswith("__") and name.endswith("__")):
+    if (not name.startswith("_") and not nested) or (name.startswith("__") and name.endswith("__")):
         return False
     return name not in baseline().get(rel, set())
 
@@ -60,6 +60,14 @@ def _ifexp(test, a, b):
     """`a if test else b`, factoring `f(.., x, ..) if c else f(.., y, ..)` into `f(.., x if c else y, ..)`."""
     if _norm(a) == _norm(b):
         return a
+    if _norm(test) == _norm(a):
+        return ast.BoolOp(op=ast.Or(), values=[a, b])            # `x if x else y`  ->  `x or y`
+    if isinstance(a, ast.Call) and isinstance(b, ast.Call) and isinstance(a.func, ast.Attribute) and isinstance(b.func, ast.Attribute) and a.func.attr == b.func.attr \
+            and [_norm(x) for x in a.args] == [_norm(x) for x in b.args] and [(k.arg, _norm(k.value)) for k in a.keywords] == [(k.arg, _norm(k.value)) for k in b.keywords] \
+            and _norm(a.func.value) != _norm(b.func.value):
+        c = copy.deepcopy(a)                                          # `x.m(..) if c else y.m(..)`  ->  `(x if c else y).m(..)`
+        c.func.value = _ifexp(test, a.func.value, b.func.value)
+        return c
     if isinstance(a, ast.Call) and isinstance(b, ast.Call) and _norm(a.func) == _norm(b.func) and len(a.args) == len(b.args) \
             and [k.arg for k in a.keywords] == [k.arg for k in b.keywords] and not any(isinstance(x, ast.Starred) for x in a.args + b.args):
         pa = list(a.args) + [k.value for k in a.keywords]
@@ -118,7 +126,7 @@ class _Canon(ast.NodeTransformer):
         if len(b) == 1 and len(o) == 1:
             x, y = b[0], o[0]
             if isinstance(x, ast.Assign) and isinstance(y, ast.Assign) and len(x.targets) == 1 and len(y.targets) == 1 \
-                    and _norm(x.targets[0]) == _norm(y.targets[0]) and isinstance(x.targets[0], (ast.Name, ast.Attribute, ast.Subscript)):
+                    and _norm(x.targets[0]) == _norm(y.targets[0]) and isinstance(x.targets[0], (ast.Name, ast.Attribute, ast.Subscript, ast.Tuple)):
                 return _loc(ast.Assign(targets=[x.targets[0]], value=_ifexp(node.test, x.value, y.value)), node)
             if isinstance(x, ast.Return) and isinstance(y, ast.Return) and x.value is not None and y.value is not None:
                 return _loc(ast.Return(value=_ifexp(node.test, x.value, y.value)), node)
@@ -293,6 +301,10 @@ def _replace_tail_returns(stmts, make):
         _replace_tail_returns(last.body, make)
 
 
+def _still_called(fn, name) -> bool:
+    return any(isinstance(n, ast.Name) and n.id == name and isinstance(n.ctx, ast.Load) for n in ast.walk(fn))
+
+
 class Inliner:
     def __init__(self, model, rel, owner_cls, stack=()):
         self.m, self.rel, self.cls, self.stack = model, rel, owner_cls, stack
@@ -390,10 +402,37 @@ class Inliner:
         return wrapper.body
 
     def run(self, fn):
-        closures = {s.name: s for s in fn.body if isinstance(s, ast.FunctionDef) and is_artefact(self.rel, s)}
+        closures = {}
+
+        def collect(stmts):
+            for s in stmts:
+                if isinstance(s, ast.FunctionDef):
+                    if is_artefact(self.rel, s, nested=True):
+                        closures[s.name] = s
+                    continue
+                if isinstance(s, ast.ClassDef):
+                    continue
+                for f in ("body", "orelse", "finalbody"):
+                    v = getattr(s, f, None)
+                    if isinstance(v, list) and v and isinstance(v[0], ast.stmt):
+                        collect(v)
+                for h in getattr(s, "handlers", []) or []:
+                    collect(h.body)
+        collect(fn.body)
         self._stmts(fn.body, closures, top=True)
         if closures:
-            fn.body = [s for s in fn.body if not (isinstance(s, ast.FunctionDef) and s.name in closures and s.name in self.inlined)]
+            def prune(stmts):
+                stmts[:] = [s for s in stmts if not (isinstance(s, ast.FunctionDef) and s.name in closures and s.name in self.inlined and not _still_called(fn, s.name))] or [ast.Pass()]
+                for s in stmts:
+                    if isinstance(s, (ast.FunctionDef, ast.ClassDef)):
+                        continue
+                    for f in ("body", "orelse", "finalbody"):
+                        v = getattr(s, f, None)
+                        if isinstance(v, list) and v and isinstance(v[0], ast.stmt):
+                            prune(v)
+                    for h in getattr(s, "handlers", []) or []:
+                        prune(h.body)
+            prune(fn.body)
         return fn
 
     def _stmts(self, stmts, closures, top=False):
@@ -422,7 +461,7 @@ class Inliner:
         if r is None:
             return None
         callee, recv, kind = r
-        if not is_artefact(self.rel, callee):
+        if not is_artefact(self.rel, callee, nested=(kind == "closure")):
             return None
         return callee, recv, kind
 
